@@ -1,10 +1,14 @@
 package main
 
 import (
+	"fmt"
+	"io"
 	"net"
+	"os"
 	"os/exec"
 	"strings"
 	"sync"
+	"sync/atomic"
 )
 
 // Local addresses in public and private ranges, added to the loopback interface so that the
@@ -103,4 +107,39 @@ func socksAddrBytes(kind, port int) []byte {
 		return []byte{}
 	}
 	return []byte{9, 1, 2, 3, 4, 5, 6}
+}
+
+var lowPortTurn int64
+
+// freeLowPorts returns the first of n consecutive ports on 127.0.0.1 that are free (TCP and UDP) right
+// now, taken from below the kernel's ephemeral range (ip_local_port_range starts at 32768): a
+// listening address chosen there cannot be taken, while the scenario has it unbound for a moment,
+// by the source port of some unrelated outgoing connection of this machine.
+func freeLowPorts(n int) int {
+	for try := 0; try < 2000; try++ {
+		base := 29300 + int((int64(os.Getpid())*131+atomic.AddInt64(&lowPortTurn, int64(n)))%int64(3400-n))
+		ok := true
+		var hold []io.Closer
+		for i := 0; i < n && ok; i++ {
+			l, err := net.Listen("tcp", fmt.Sprintf("127.0.0.1:%d", base+i))
+			if err != nil {
+				ok = false
+				break
+			}
+			hold = append(hold, l)
+			u, err := net.ListenPacket("udp", fmt.Sprintf("127.0.0.1:%d", base+i))
+			if err != nil {
+				ok = false
+				break
+			}
+			hold = append(hold, u)
+		}
+		for _, h := range hold {
+			h.Close()
+		}
+		if ok {
+			return base
+		}
+	}
+	return 0
 }
